@@ -189,10 +189,15 @@ def templates(rng, nt, ns, nc, amp=20, style=None):
 
 
 def gen_input(rng, **o):
-    nt = o.get('nt', rng.randint(2, 5))
+    # stage 6: 'big' = the magnitude axis of the ids -- many templates (template ids up to ~130; the comparator costs n_templates^2 per queried cluster) and cluster ids in the
+    # thousands (a long phy session: every merge / split takes a fresh, ever-growing id), with every id dtype the loader
+    # accepts, so that template_id * n_clusters and similar products leave the range of a 16-bit id dtype
+    big = o.get('big', False)
+    nt = o.get('nt', rng.choice([17, 24, 40, 64, 100, 130]) if big else rng.randint(2, 5))
     ties = o.get('ties', False)
-    nc = o.get('nc', rng.choice([13, 14, 15, 16, 16, 17, 20, 24, 32] if ties else [3, 4, 5, 6, 8, 8, 13, 14, 16]))
-    ns = o.get('ns', rng.randint(2, 4))
+    nc = o.get('nc', rng.choice([3, 4]) if big else
+               rng.choice([13, 14, 15, 16, 16, 17, 20, 24, 32] if ties else [3, 4, 5, 6, 8, 8, 13, 14, 16]))
+    ns = o.get('ns', 2 if big else rng.randint(2, 4))
     nspk = o.get('nspk', rng.randint(2, 14))
     if o.get('st'):
         st = list(o['st'])
@@ -219,6 +224,13 @@ def gen_input(rng, **o):
         sc, names = list(o['sc']), ['given']
     else:
         sc, names = history(rng, st, n_ops)
+        if big:
+            # the fresh ids of the session (>= n_templates) lie far above the template ids; ids stay < 4096 (Corr regime)
+            off = o.get('id_off', rng.choice([0, 0, 250, 1000, 2500, 3000, 4000]))
+            off = max(0, min(off, 4090 - max(sc)))
+            if off:
+                sc = [c + off if c >= nt else c for c in sc]
+                names = names + ['offset']
     shk = o.get('shanks', rng.choice(['none', 'none', 'two', 'three']))
     if shk == 'none':
         shanks = None
@@ -255,6 +267,21 @@ def gen_input(rng, **o):
                 extra.append(['cluster_group.tsv', 'text'])
     if extra:
         inp['opts']['extra'] = [list(e) for e in extra]
+    # stage 6: the curation GOES ON on the loaded object -- further stages of operations applied to model.spike_clusters
+    # (in place / element-wise in place / by rebinding the attribute) between two rounds of queries.  Key present only when
+    # non-empty.
+    hist = o.get('hist')
+    if hist is None:
+        hist = []
+        if rng.random() < o.get('p_hist', 0.0):
+            cur = list(sc)
+            for _ in range(rng.choice([1, 1, 2, 3])):
+                nxt, _names = history(rng, cur, rng.choice([1, 1, 2, 3]))
+                nxt = [min(c, 4095) for c in nxt]
+                hist.append({'sc': nxt, 'mode': rng.choice(['inplace', 'elementwise', 'rebind'])})
+                cur = nxt
+    if hist:
+        inp['hist'] = [dict(h, sc=list(h['sc'])) for h in hist]
     return inp
 
 
